@@ -28,8 +28,8 @@ where
 {
     open spec fn meets(&self, rhs: &Coord<T>) -> bool { pt(*self) == pt(*rhs) }
 //@fn geo/src/algorithm/intersects/coordinate.rs | impl<T> Intersects<Coord<T>> for Coord<T> where T: CoordNum, | intersects | id=C02.V.coord_intersects_coord
-//@before 1 `self == rhs`
-        proof { T::ax_obeys(); T::ax_cmp(self.x, rhs.x); T::ax_cmp(self.y, rhs.y); }
+//@entry
+        proof { T::ax_obeys(); T::ax_order(); }
 //@end
 }
 
@@ -50,11 +50,8 @@ where
         rmin(*self).x.val() <= rhs.x.val() && rhs.x.val() <= rmax(*self).x.val() && rmin(*self).y.val() <= rhs.y.val() && rhs.y.val() <= rmax(*self).y.val()
     }
 //@fn geo/src/algorithm/intersects/rect.rs | impl<T> Intersects<Coord<T>> for Rect<T> where T: CoordNum, | intersects | id=C02.V.rect_intersects_coord
-//@before 1 `rhs.x >= self.min().x`
-        proof {
-            T::ax_obeys();
-            T::ax_cmp(rhs.x, self.min.x); T::ax_cmp(rhs.y, self.min.y); T::ax_cmp(rhs.x, self.max.x); T::ax_cmp(rhs.y, self.max.y);
-        }
+//@entry
+        proof { T::ax_obeys(); T::ax_order(); }
 //@end
 }
 
@@ -68,11 +65,8 @@ where
         && rmin(*self).y.val() <= rmax(*other).y.val() && rmin(*other).y.val() <= rmax(*self).y.val()
     }
 //@fn geo/src/algorithm/intersects/rect.rs | impl<T> Intersects<Rect<T>> for Rect<T> where T: CoordNum, | intersects | id=C02.V.rect_intersects_rect
-//@before 1 `if self.max().x < other.min().x {`
-        proof {
-            T::ax_obeys();
-            T::ax_cmp(self.max.x, other.min.x); T::ax_cmp(self.max.y, other.min.y); T::ax_cmp(self.min.x, other.max.x); T::ax_cmp(self.min.y, other.max.y);
-        }
+//@entry
+        proof { T::ax_obeys(); T::ax_order(); }
 //@end
 }
 
@@ -93,11 +87,8 @@ where
         rmin(*self).x.val() < coord.x.val() && coord.x.val() < rmax(*self).x.val() && rmin(*self).y.val() < coord.y.val() && coord.y.val() < rmax(*self).y.val()
     }
 //@fn geo/src/algorithm/contains/rect.rs | impl<T> Contains<Coord<T>> for Rect<T> where T: CoordNum, | contains | id=C02.V.rect_contains_coord
-//@before 1 `coord.x > self.min().x`
-        proof {
-            T::ax_obeys();
-            T::ax_cmp(coord.x, self.min.x); T::ax_cmp(coord.y, self.min.y); T::ax_cmp(coord.x, self.max.x); T::ax_cmp(coord.y, self.max.y);
-        }
+//@entry
+        proof { T::ax_obeys(); T::ax_order(); }
 //@end
 }
 
@@ -111,11 +102,8 @@ where
         && rmin(*self).y.val() <= rmin(*other).y.val() && rmax(*other).y.val() <= rmax(*self).y.val()
     }
 //@fn geo/src/algorithm/contains/rect.rs | impl<T> Contains<Rect<T>> for Rect<T> where T: CoordNum, | contains | id=C02.V.rect_contains_rect
-//@before 1 `self.min().x <= other.min().x`
-        proof {
-            T::ax_obeys();
-            T::ax_cmp(self.min.x, other.min.x); T::ax_cmp(self.max.x, other.max.x); T::ax_cmp(self.min.y, other.min.y); T::ax_cmp(self.max.y, other.max.y);
-        }
+//@entry
+        proof { T::ax_obeys(); T::ax_order(); }
 //@end
 }
 
@@ -129,14 +117,8 @@ where
         else { on_segment(pt(*coord), pt(self.start), pt(self.end)) && pt(*coord) != pt(self.start) && pt(*coord) != pt(self.end) }
     }
 //@fn geo/src/algorithm/contains/line.rs | impl<T> Contains<Coord<T>> for Line<T> where T: GeoNum, | contains | id=C02.V.line_contains_coord
-//@before 1 `if self.start == self.end {`
-        proof {
-            T::ax_obeys();
-            T::ax_cmp(self.start.x, self.end.x); T::ax_cmp(self.start.y, self.end.y);
-            T::ax_cmp(self.start.x, coord.x); T::ax_cmp(self.start.y, coord.y);
-            T::ax_cmp(coord.x, self.start.x); T::ax_cmp(coord.y, self.start.y);
-            T::ax_cmp(coord.x, self.end.x); T::ax_cmp(coord.y, self.end.y);
-        }
+//@entry
+        proof { T::ax_obeys(); T::ax_order(); }
 //@end
 }
 
@@ -155,8 +137,8 @@ where
         }
     }
 //@fn geo/src/algorithm/contains/line.rs | impl<T> Contains<Line<T>> for Line<T> where T: GeoNum, | contains | id=C02.V.line_contains_line
-//@before 1 `if line.start == line.end {`
-        proof { T::ax_obeys(); T::ax_cmp(line.start.x, line.end.x); T::ax_cmp(line.start.y, line.end.y); }
+//@entry
+        proof { T::ax_obeys(); T::ax_order(); }
 //@end
 }
 
@@ -223,8 +205,8 @@ where
 {
     open spec fn holds(&self, coord: &Coord<T>) -> bool { pt(self.0) == pt(*coord) }
 //@fn geo/src/algorithm/contains/point.rs | impl<T> Contains<Coord<T>> for Point<T> where T: CoordNum, | contains | id=C02.V.point_contains_coord
-//@before 1 `&self.0 == coord`
-        proof { T::ax_obeys(); T::ax_cmp(self.0.x, coord.x); T::ax_cmp(self.0.y, coord.y); }
+//@entry
+        proof { T::ax_obeys(); T::ax_order(); }
 //@end
 }
 impl<T> Contains<Line<T>> for Point<T>
@@ -234,8 +216,8 @@ where
     /// only a degenerate line (a point) can be inside a point
     open spec fn holds(&self, line: &Line<T>) -> bool { pt(line.start) == pt(line.end) && pt(line.start) == pt(self.0) }
 //@fn geo/src/algorithm/contains/point.rs | impl<T> Contains<Line<T>> for Point<T> where T: CoordNum, | contains | id=C02.V.point_contains_line
-//@before 1 `if line.start == line.end {`
-        proof { T::ax_obeys(); T::ax_cmp(line.start.x, line.end.x); T::ax_cmp(line.start.y, line.end.y); T::ax_cmp(line.start.x, self.0.x); T::ax_cmp(line.start.y, self.0.y); }
+//@entry
+        proof { T::ax_obeys(); T::ax_order(); }
 //@end
 }
 
